@@ -1,5 +1,5 @@
 """symx - solver-backed native symbolic execution of the real behave code (see DESIGN.md section 2)."""
-from .core import (SymBool, SymInt, SymEnum, SymChoice, PathAbort, Unsupported, HarnessError,
+from .core import (SymBool, SymInt, SymEnum, SymChoice, SymTagSet, PathAbort, Unsupported, HarnessError,
                    zbool, is_sym, lift_call, sel_in)
 from .session import Session, explore, run_concrete, Result, Violation
 from .instr import install, installed, STATS
